@@ -449,6 +449,16 @@ func componentCase(c *Case) (*WF, string) {
 		if t.Choose(simrt.StGen, 2, 0) == 1 {
 			e = Edge{oneToOne(w, "pre", e), "o0"}
 		}
+		// sometimes an input larger than the buffer sizes an implementation is
+		// likely to copy with (page, io.Copy's 32 KiB, 64 KiB, 1 MiB)
+		if big := []int{0, 0, 0, 0, 4096 + 7, 32768 + 100, 65536 + 1, 1<<20 + 333, 2<<20 + 5}[t.Choose(simrt.StGen, 9, 0)]; big > 0 && n > 0 {
+			if pre := w.NodeByName("pre"); pre != nil {
+				pre.PadTo = big
+			} else {
+				f := w.Nodes[s].Files[t.Choose(simrt.StGen, n, 0)]
+				w.Sources[f] = string(simrt.OpContent("bigsource", nil, []string{f}, 0, big))
+			}
+		}
 		from := []Edge{e}
 		if t.Choose(simrt.StGen, 3, 0) == 1 {
 			s2 := srcNode(w, "src1", 1+t.Choose(simrt.StGen, 2, 0), "")
@@ -628,7 +638,7 @@ func init() {
 				nEdges := len(w.NodeByName("cat").Ins[0].From)
 				if nEdges == 1 {
 					if id.data != strings.Join(blocks, "") {
-						return Viol("concat-content", kind, "Concatenator output %q; inputs in arrival order give %q", clip([]byte(id.data)), clip([]byte(strings.Join(blocks, ""))))
+						return Viol("concat-content", kind, "Concatenator output (%d bytes) %q; inputs in arrival order give (%d bytes) %q", len(id.data), clip([]byte(id.data)), len(strings.Join(blocks, "")), clip([]byte(strings.Join(blocks, ""))))
 					}
 				} else {
 					rest := id.data
